@@ -2,6 +2,7 @@ from copy import deepcopy
 from typing import Any, Sequence
 
 from th import PathHolder
+from th.operators import ItemAccessor
 
 from ._abstract_formatter import AbstractFormatter
 from .errors import (
@@ -39,7 +40,13 @@ class Formatter(AbstractFormatter):
         return deepcopy(path, {id(x.operand): x.operand for x in path})
 
     def _format_path(self, path: PathHolder) -> str:
-        return str(path.__class__(self._root, [x for x in path]))
+        try:
+            return str(path.__class__(self._root, [x for x in path]))
+        except (ValueError, RecursionError):
+            # a key that repr() cannot print (see _repr)
+            return self._root + "".join(
+                f"[{self._repr(x.operand)}]" if isinstance(x, ItemAccessor) else str(x)
+                for x in path)
 
     def _at_path(self, path: PathHolder) -> str:
         return " at " + self._format_path(path) if len(path) > 0 else ""
